@@ -49,6 +49,7 @@ import (
 	istatus "google.golang.org/grpc/internal/status"
 	isyscall "google.golang.org/grpc/internal/syscall"
 	"google.golang.org/grpc/internal/transport/networktype"
+	"google.golang.org/grpc/internal/verifhook"
 	"google.golang.org/grpc/keepalive"
 	"google.golang.org/grpc/mem"
 	"google.golang.org/grpc/metadata"
@@ -926,6 +927,7 @@ func (t *http2Client) NewStream(ctx context.Context, callHdr *CallHdr, handler s
 			return nil, &NewStreamError{Err: hdrListSizeErr}
 		}
 		firstTry = false
+		verifhook.At("h2c.wait", t)
 		select {
 		case <-ch:
 		case <-ctx.Done():
